@@ -20,11 +20,18 @@ class C04(Prop):
         "Stgutg.Props.C04.C04_roundtrip_container", "Stgutg.Props.C04.ngSetupRequest_conf",
         "Stgutg.Props.C04.ngSetupRequest_encodes",
     ]
-    domains = [Domain("aper-rt", 600, 30000)]
+    # aper-enc: the second clause speaks of encodings "produced by an independent X.691 encoder". The library's decoder is run
+    # on the library's own encodings (aper-rt); that these ARE the independent encoder's octets (the X.691 oracle under the
+    # frozen TS 38.413 table, values mapped by component name) is what aper-enc compares, exactly as the theorems compose
+    # (C04_roundtrip_pdu + C03 canonical). A codec that is self-consistent but not conformant (two components of a SEQUENCE
+    # exchanged in one ngapType struct) is seen there.
+    domains = [Domain("aper-rt", 600, 30000), Domain("aper-enc", 300, 10000)]
     rule = ("aper-rt: constraint-satisfying random values of NGAPPDU (60%), transfer containers (20%) and arbitrary ngapType types (20%), "
             "plus every leaf wrapper type at boundary values, strings of fragmented lengths (16383 … 131072 items) for every leaf string type "
             "with a general length and PDUs carrying one such string (fragmented open types), through Marshal -> Unmarshal -> field-by-field comparison (aperrt) and "
             "Unmarshal -> Marshal -> byte comparison of the library's own encodings (aperre); "
+            "aper-enc (the generators of C03): the library's octets = the independent X.691 encoder's under the frozen TS 38.413 table, "
+            "values mapped by component name; "
             "non-trivial = value with at least 12 tokens; distinct by op line")
     level_text = ("Round-trip theorems for the codec model (decode inverts encode) + differential run of the real encoder/decoder "
                   "on type-directed random values of every message type; every field compared")
@@ -38,6 +45,11 @@ class C04(Prop):
         if impl == "bad-op" or model == "bad-op":
             return ("corr", "harness/driver could not parse the op")
         parts = impl.split(" ")
+        if not (op.startswith("aperrt") or op.startswith("aperre")):
+            # aper-enc ops: the library's octets against the independent encoder's
+            if spec not in ("n/a", "undef") and impl != spec:
+                return ("viol", self.key(op, impl, model, spec), "the library's encoding is not the independent X.691 encoder's: "
+                        "the conformant encoding of this value denotes another value to the library's decoder")
         if op.startswith("aperrt"):
             if parts[0] == "decerr":
                 return ("viol", self.key(op, impl, model, spec), "the library cannot decode its own encoding of a value it accepted")
